@@ -365,6 +365,17 @@ theorem no_live_file_written :
       (c.1 = "WriteFile" ∨ c.1 = "OpenFile" ∨ c.1 = "Create" ∨ c.1 = "Truncate") → isTempExpr c.2.1 = true := by
   decide
 
+/-- The server binary's own start-up code touches the stores only through the loaders: the only file-mutating
+    calls in cmd/mobius-hotline-server are those of `-init` (create the config dir, copy the default files).  In
+    particular nothing promotes, renames or removes `*.tmp` files before the loaders run. -/
+theorem startup_only_loads :
+    Generated.mainMutations =
+      [("main.copyDir",
+          [("MkdirAll", "path.Join(dst, dirEntry.Name())", "", "loop && if dirEntry.IsDir()"),
+           ("Create", "path.Join(dst, dirEntry.Name(), subDirEntry.Name())", "", "loop && if dirEntry.IsDir() && loop"),
+           ("Create", "path.Join(dst, dirEntry.Name())", "", "loop && else dirEntry.IsDir()")]),
+       ("main.main", [("MkdirAll", "*configDir", "", "if *init && if os.IsNotExist(err)")])] := by decide
+
 /-- The account loader globs `*.yaml` (which `isYaml` models). -/
 theorem account_glob : Generated.accountGlob = "*.yaml" := by decide
 
